@@ -6,11 +6,14 @@ namespace Ts
 
 def G.children (g : G) (n : Nat) : List Nat := ((lookup g.outputs n).getD []).map (·.1)
 
+/-- append the elements of `ps` that are not there yet -/
+def addNewN (w ps : List Nat) : List Nat := ps.foldl (fun w p => if w.contains p then w else w ++ [p]) w
+
 /-- nodes reachable from the frontier by one or more edges, `fuel` rounds of expansion -/
 def G.reachFrom (g : G) : Nat → List Nat → List Nat → List Nat
   | 0, _, seen => seen
   | fuel + 1, frontier, seen =>
-    let next := (frontier.flatMap g.children).eraseDups.filter (fun x => !seen.contains x)
+    let next := (addNewN [] (frontier.flatMap g.children)).filter (fun x => !seen.contains x)
     if next.isEmpty then seen else g.reachFrom fuel next (seen ++ next)
 
 /-- a cycle through `seed` exists iff `seed` is reachable from itself by at least one edge -/
